@@ -109,6 +109,10 @@ pub fn extra_alphabet() -> Vec<Value> {
         json!({"k": "load", "docs": [rule("W", &[("$a", ".x == '1'")], Some("  "))]}),                                 // blank condition: not in the grammar
         json!({"k": "load", "docs": [{"name": "N", "params": {"disable": false}, "matches": [["$a", ".x == '1'"]], "condition": "$a"}]}), // explicitly enabled
         json!({"k": "load", "docs": [{"name": "O", "params": {}, "matches": [["$a", ".x == '1'"]]}, rule("O2", &[("$d", "rule(O)")], Some("$d"))]}), // empty params; a dependant
+        json!({"k": "load", "docs": [rule("H", &[("$a", ".x == '1'"), ("$d", "rule(Zq)")], Some("$a"))]}),               // a `rule(..)` operand the condition never looks at: still a dependency
+        json!({"k": "tpl", "doc": [["t", "9"], ["u", "2"], ["v", "3"]]}),                                              // redefines `t` (if defined) next to new names: rejected as a whole
+        json!({"k": "load", "docs": [rule("UV", &[("$a", ".x == '{{u}}{{v}}{{t}}'")], Some("$a"))]}),                  // shows which of u, v, t are defined
+        json!({"k": "load", "docs": [rule("A2", &[("$a", ".x == '{{t}}'")], Some("$a"))]}),                             // the same match string as rule A, another rule
         json!({"k": "load", "docs": [{"name": "V", "meta": {"attack": ["T4294967296", "T1059.99999999999999999999"]}, "matches": [["$a", ".x == '1'"]]}]}), // id numbers beyond u32/u64
     ]
 }
